@@ -7,7 +7,6 @@ package main
 // (prefix "END "). Exit status: 0 normal (violations are reported in the JSON), 2 internal error.
 
 import (
-	"sync/atomic"
 	"crypto/sha256"
 	"encoding/hex"
 	"encoding/json"
@@ -15,8 +14,10 @@ import (
 	"fmt"
 	"os"
 	"runtime"
+	"runtime/debug"
 	"sort"
 	"strings"
+	"sync/atomic"
 	"time"
 
 	"github.com/ryogrid/SamehadaDB/lib/storage/disk"
@@ -58,17 +59,17 @@ type ReplayFile struct {
 }
 
 var (
-	flProp    string
-	flSeed    uint64
-	flStart   int
-	flRuns    int
-	flTier    string
-	flScratch string
-	flReplay  string
-	flBudget  int
-	flDet     bool
-	flVerbose bool
-	flSamples int
+	flProp     string
+	flSeed     uint64
+	flStart    int
+	flRuns     int
+	flTier     string
+	flScratch  string
+	flReplay   string
+	flBudget   int
+	flDet      bool
+	flVerbose  bool
+	flSamples  int
 	flMinimise bool
 )
 
@@ -136,6 +137,7 @@ func main() {
 		os.Stdout = os.Stderr
 		disk.SimDebug = true
 		simsync.DebugOwners = true
+		simrt.DumpStacks = os.Getenv("VERIF_DUMP_STACKS") != ""
 	}
 	emit := func(prefix string, v any) {
 		b, _ := json.Marshal(v)
@@ -212,7 +214,7 @@ func main() {
 	var curRun, curStart int64
 	var curSeed uint64
 	go func() {
-		limit := int64(45)
+		limit := int64(90)
 		if flTier == "thorough" {
 			limit = 300
 		}
@@ -222,6 +224,9 @@ func main() {
 		for {
 			time.Sleep(2 * time.Second)
 			st := atomic.LoadInt64(&curStart)
+			if lp := atomic.LoadInt64(&lastProgress); lp > st {
+				st = lp // the run is slow but alive: the watchdog measures time without progress
+			}
 			if st != 0 && time.Now().Unix()-st > limit {
 				buf := make([]byte, 1<<20)
 				n := runtime.Stack(buf, true)
@@ -270,7 +275,7 @@ func main() {
 		atomic.StoreInt64(&curRun, int64(i))
 		atomic.StoreInt64(&curStart, t1.Unix())
 		liveCfg, liveOps = nil, nil
-		rep := d(i, seed)
+		rep := safeRun(d, i, seed, drv)
 		atomic.StoreInt64(&curStart, 0)
 		rep.Driver = drv
 		rep.Run = i
@@ -329,4 +334,48 @@ func firstLines(s string, n int) string {
 		lines = lines[:n]
 	}
 	return strings.Join(lines, "\n")
+}
+
+// lastProgress: unix time of the last sign of life of the current run (an operation executed, a
+// crash image recovered, a simulated run finished). The hang watchdog measures time since then.
+var lastProgress int64
+
+func progressTick() { atomic.StoreInt64(&lastProgress, time.Now().Unix()) }
+
+// minimisation is expensive: at most a few per worker process, and none after the worker's budget
+var minimisedSoFar int
+var workerStart = time.Now()
+
+func mayMinimise() bool {
+	if !flMinimise || minimisedSoFar >= 3 {
+		return false
+	}
+	if flBudget > 0 && time.Since(workerStart) > time.Duration(flBudget)*time.Second {
+		return false
+	}
+	minimisedSoFar++
+	return true
+}
+
+// safeRun: a panic that escapes a driver (an engine anomaly the observer code did not expect, e.g. a
+// catalog that lost a column) is reported as a violation of the property under test with the
+// innermost repository frame as site; it never takes the worker down silently.
+func safeRun(d driverFn, i int, seed uint64, drv string) (rep RunReport) {
+	defer func() {
+		if r := recover(); r != nil {
+			st := string(debug.Stack())
+			v := Violation{Property: flProp, Class: "panic-while-observing", Site: panicSite(st), Detail: fmt.Sprintf("%v [%s]", r, repoFrames(st, 6))}
+			rf := ReplayFile{Property: flProp, Driver: drv, Seed: seed, Tier: flTier, Violation: v, Note: firstLines(st, 40)}
+			if liveCfg != nil {
+				rf.Cfg = mustJSON(liveCfg)
+			}
+			if liveOps != nil {
+				b, _ := marshalOps(*liveOps)
+				rf.Ops = b
+				rf.OpsCount = len(*liveOps)
+			}
+			rep = RunReport{Outcome: "violation", Sig: "panic", Nontrivial: true, Viol: []ReplayFile{rf}}
+		}
+	}()
+	return d(i, seed)
 }
